@@ -9,7 +9,7 @@
      ===S        arb_spec     case-insensitive equality with str(candidate)                                            *)
 From Coq Require Import List Arith NArith Bool Lia.
 Import ListNotations.
-Require Import S1 VParse VComplete VTop VTop2 VDec Py VMeaning VCmp SpecModel SpecOps SpecOps2 Prefix Prefix4 Compat SpecParse SpecSound SpecContains SpecSem SpecMain SpecLink SpecGate SpecArb SpecAdmit SpecStruct SpecSpell VAscii.
+Require Import S1 VParse VComplete VTop VTop2 VDec Py VMeaning VCmp SpecModel SpecOps SpecOps2 Prefix Prefix4 Compat SpecParse SpecSound SpecContains SpecSem SpecMain SpecLink SpecGate SpecArb SpecArbFull SpecAdmit SpecStruct SpecSpell VAscii NamesX.
 Open Scope N_scope.
 
 (* 1. every specifier the constructor accepts denotes a version form its operator admits (so the semantics below is defined) *)
@@ -37,7 +37,9 @@ Print Assumptions C03_operator_table.
 
 (* 4. "with pre-releases enabled", however that comes about.  [arg] = the call argument, [ov] = the object's own setting (constructor
       keyword or attribute assigned later), neither = the operator's automatic default; `item in spec` is contains with no argument.
-      Gate open (setting true, or the candidate is no pre-release): the answer is the PEP 440 definition.  Gate closed: a pre-release is refused. *)
+      Gate open (setting true, or the candidate is no pre-release): the answer is the PEP 440 definition (substantive: rests on theorem 2).
+      Gate closed: a pre-release is refused; an invalid candidate is InvalidVersion - these two are DEFINITIONAL (one unfolding of the model's
+      contains(), which mirrors specifiers.py line by line; they hold for any specifier record, accepted or not). *)
 Theorem C03_gate_open s sp ov arg item c : Specifier s = Some sp -> Version item = Some c ->
   (match arg with Some b => b | None => effective_pre ov sp end) = true \/ is_prerelease c = false ->
   Some (contains sp ov arg item) = contains_spec sp item.
@@ -50,15 +52,22 @@ Print Assumptions C03_gate_closed.
 Theorem C03_invalid_candidate sp ov arg item : Version item = None -> contains sp ov arg item = BadItem.
 Proof. exact (gate_bad_item sp ov arg item). Qed.
 Print Assumptions C03_invalid_candidate.
-(* Specifier(s, prereleases=True).contains(item) and item in Specifier(s, prereleases=True) *)
+(* Specifier(s, prereleases=True).contains(item) and item in Specifier(s, prereleases=True).  The second conjunct is the first by definition
+   (in_op sp ov item := contains sp ov None item, as __contains__ is self.contains(item)); that `in` really behaves so is checked by the
+   correspondence streams query:in / sem:object-setting:in, whose model side runs in_op. *)
 Theorem C03_enabled_by_object_setting s sp item : Specifier s = Some sp ->
   Some (contains sp (Some true) None item) = contains_spec sp item /\ Some (in_op sp (Some true) item) = contains_spec sp item.
 Proof. exact (enabled_by_object_setting s sp item). Qed.
 Print Assumptions C03_enabled_by_object_setting.
 
 (* 5. the === clause has content: the candidate's normalised string is lower-case ASCII already, so "case-insensitive equality" means
-      that lower-casing the specifier's text yields exactly str(candidate); for ASCII text that is per-character ASCII lower-casing;
-      a matching text consists of ASCII characters and, at most, U+212A KELVIN SIGN (str.lower() maps it to 'k') *)
+      that lower-casing the specifier's text yields exactly str(candidate).
+      5a (next four theorems) is stated with VMeaning.py_lower, the lower-casing the executable specifier model uses: exact on ASCII, U+0130 and
+      U+212A, the identity elsewhere - NOT str.lower() on arbitrary text.
+      5b (the _exact theorems after them) states the same with NamesX.lower_full, the exact model of str.lower() (full interpreter table
+      Gen/LowerTable, re-validated per code point on every run, and the Final_Sigma rule): because U+212A KELVIN SIGN is the only non-ASCII code
+      point whose lower-casing is ASCII (SpecArbFull.only_kelvin, computed over the 1407 entries), the model's === coincides with
+      str(candidate).lower() == text.lower() on EVERY text. *)
 Theorem C03_normalised_string_is_lower_case c : VMeaning.wf_version c -> py_lower (vstr c) = vstr c /\ forallb is_ascii (vstr c) = true.
 Proof. intros W. split; [exact (py_lower_vstr c W) | exact (allC_ascii _ (vstr_alphabet c W))]. Qed.
 Print Assumptions C03_normalised_string_is_lower_case.
@@ -71,6 +80,19 @@ Print Assumptions C03_arbitrary_equality_ascii.
 Theorem C03_arbitrary_match_alphabet c t : VMeaning.wf_version c -> arb_spec c t = true -> forallb (fun x => is_ascii x || (x =? 8490)) t = true.
 Proof. exact (arb_match_chars c t). Qed.
 Print Assumptions C03_arbitrary_match_alphabet.
+
+(* 5b. against the exact str.lower() *)
+Theorem C03_arbitrary_equality_is_exact_lower c t : VMeaning.wf_version c ->
+  cmp_arbitrary c t = Some (VMeaning.str_eqb (lower_full (vstr c)) (lower_full t)) /\ lower_full (vstr c) = vstr c.
+Proof. intros W. split; [exact (cmp_arbitrary_exact c t W) | exact (lower_full_vstr c W)]. Qed.
+Print Assumptions C03_arbitrary_equality_is_exact_lower.
+Theorem C03_arbitrary_equality_exact c t : VMeaning.wf_version c -> (arb_spec c t = true <-> lower_full t = vstr c).
+Proof. exact (arb_spec_iff_full c t). Qed.
+Print Assumptions C03_arbitrary_equality_exact.
+Theorem C03_arbitrary_match_alphabet_exact c t : VMeaning.wf_version c -> lower_full t = vstr c ->
+  forallb (fun x => is_ascii x || (x =? 8490)) t = true.
+Proof. exact (arb_match_chars_full c t). Qed.
+Print Assumptions C03_arbitrary_match_alphabet_exact.
 
 (* 6. the quantifier "every operator x every specifier version the operator admits", from the structured side: for every structured
       version V the operator admits (and every wildcard form), the code model's comparison on the canonical text of V is [sem];
@@ -118,8 +140,10 @@ Theorem C03_every_spelling_every_admitted_version o t V item c : Version t = Som
 Proof. exact (contains_of_version o t V item c). Qed.
 Print Assumptions C03_every_spelling_every_admitted_version.
 
-(* 7. the worked examples of PEP 440 "Version specifiers" (94 rows: ~=2.2.post3, ==1.1.* vs 1.1a1, >1.7 vs 1.7.0.post1, >1.7.post2 vs 1.7.0.post3,
-      <1.7 vs 1.7a1, local labels, zero padding, epochs, ===), evaluated with the declarative semantics: [sem] says what the PEP says *)
+(* 7. examples from PEP 440 "Version specifiers", 86 rows (SpecStruct.pep440_row_count): 14 the PEP spells out itself (pep440_verbatim: the
+      1.1.post1 / 1.1a1 clauses of == and !=, >1.7 vs 1.7.1 / 1.7.0.post1, >1.7.post2 vs 1.7.1 / 1.7.0.post3 / 1.7.0) and 72 instances, chosen
+      here, of the rules and equivalences it states (~=2.2.post3 as >=2.2.post3,==2.*; local labels; zero padding; epochs; <V and pre-releases; ===),
+      evaluated with the declarative semantics: [sem] agrees with this reading of the PEP *)
 Example C03_pep440_examples : pep440_table_check = true.
 Proof. vm_compute. reflexivity. Qed.
 
